@@ -258,7 +258,7 @@ func runPipeBLabelled(label string, bseed uint64) string {
 	evWG.Wait()
 	// quiescence: no pool is filling and every open socket is a connection of an open pool
 	orphans := 0
-	dl := time.Now().Add(watchdog)
+	dl := time.Now().Add(wd())
 	for {
 		sample()
 		pmu.Lock()
@@ -266,13 +266,20 @@ func runPipeBLabelled(label string, bseed uint64) string {
 		pmu.Unlock()
 		filling := false
 		var inOpen []net.Conn
+		reg := gocql.VerifHostPools(s)
 		for _, p := range ps {
 			_, _, x, f := p.State()
 			if f {
 				filling = true
 			}
-			if !x {
-				inOpen = append(inOpen, p.NetConns()...)
+			registered := false
+			for _, q := range reg {
+				if q.Same(p) {
+					registered = true
+				}
+			}
+			if !x && registered {
+				inOpen = append(inOpen, p.NetConns()...) // only a registered pool counts as "an open pool"
 			}
 		}
 		orphans = 0
@@ -299,6 +306,7 @@ func runPipeBLabelled(label string, bseed uint64) string {
 			if orphans == 0 {
 				orphans = -1 // a filler that never stops
 			}
+			atomic.AddInt64(&failures, 1)
 			os.WriteFile(dumpPath("stall", label), []byte("no quiescence\n"+stacks()), 0o644)
 			break
 		}
@@ -312,7 +320,8 @@ func runPipeBLabelled(label string, bseed uint64) string {
 	go func() { s.Close(); close(cdone) }()
 	select {
 	case <-cdone:
-	case <-time.After(watchdog):
+	case <-time.After(wd()):
+		atomic.AddInt64(&failures, 1)
 		stalled = 1
 		os.WriteFile(dumpPath("stall", label), []byte("Session.Close hangs\n"+stacks()), 0o644)
 	}
@@ -320,7 +329,7 @@ func runPipeBLabelled(label string, bseed uint64) string {
 		g.releaseAllDials()
 	}
 	after := 0
-	dl = time.Now().Add(watchdog)
+	dl = time.Now().Add(wd())
 	for {
 		after = 0
 		for _, n := range cl.Nodes {
@@ -333,8 +342,12 @@ func runPipeBLabelled(label string, bseed uint64) string {
 	}
 	close(stop)
 	bg.Wait()
-	leaked, fns, raw := waitNoGocqlGoroutines(label, watchdog)
+	if after > 0 {
+		atomic.AddInt64(&failures, 1)
+	}
+	leaked, fns, raw := waitNoGocqlGoroutines(label, wd())
 	if leaked > 0 {
+		atomic.AddInt64(&failures, 1)
 		os.WriteFile(dumpPath("leak", label), []byte(raw), 0o644)
 	}
 	_ = strings.Join
@@ -343,7 +356,7 @@ func runPipeBLabelled(label string, bseed uint64) string {
 }
 
 func waitUntil(cond func() bool) bool {
-	dl := time.Now().Add(watchdog)
+	dl := time.Now().Add(wd())
 	for !cond() {
 		if time.Now().After(dl) {
 			return false
